@@ -4,9 +4,11 @@ import (
 	"bytes"
 	"encoding/json"
 	"fmt"
+	"math"
 	"os"
 	"path/filepath"
 	"reflect"
+	"sort"
 	"strings"
 	"unicode/utf8"
 
@@ -114,7 +116,7 @@ func C17(r *drv.Run) {
 	if !quick(r) {
 		n = 80000
 	}
-	r.Rule = "result lists empty / one / many from find and replace commands, flat captures and named-loop (nested) variables, produced by fixed programs that capture arbitrary bytes and by the any-program generator, over texts with quotes, backslashes, control bytes, <>&, U+2028/2029, multi-byte UTF-8, invalid UTF-8, and code points of every plane (format characters incl. astral tag characters, C1 controls, non-characters, private use, U+10FFFF; fixed and seeded random). Also RunFiles results whose file names need escaping or are spelled in a non-canonical way (quotes, backslash, <&>, non-ASCII, newline and tab in names; dir//name, dir/./name, dir/sub/../name; a directory argument with a trailing slash): the filename member must be the in-memory name, byte for byte. After the texts of a case a result list that has been rendered is refilled in place with the matches of another text (same length) and rendered again: it must give that other list's document. Oracle: Json() and FormattedJson() return without panic, json.Valid, decode to equal documents, one object per match whose fields equal the in-memory match (replacement present iff the match has one); exact string equality is demanded where the in-memory strings are valid UTF-8. Non-trivial = a result list with >= 1 match rendered and decoded; distinct by (program, text)."
+	r.Rule = "result lists empty / one / many from find and replace commands, flat captures and named-loop (nested) variables, produced by fixed programs that capture arbitrary bytes and by the any-program generator, over texts with quotes, backslashes, control bytes, <>&, U+2028/2029, multi-byte UTF-8, invalid UTF-8, and code points of every plane (format characters incl. astral tag characters, C1 controls, non-characters, private use, U+10FFFF; fixed and seeded random). Also RunFiles results whose file names need escaping or are spelled in a non-canonical way (quotes, backslash, <&>, non-ASCII, newline and tab in names; dir//name, dir/./name, dir/sub/../name; a directory argument with a trailing slash): the filename member must be the in-memory name, byte for byte. Also lists of 511 .. 20 000 matches (sizes at and next to powers of two and ten, every thousand, ten seed-chosen sizes), and EVERY list length from 1 to 1 500 (thorough: 9 000) rendered both ways and validated inside the worker. After the texts of a case a result list that has been rendered is refilled in place with the matches of another text (same length) and rendered again: it must give that other list's document. Oracle: Json() and FormattedJson() return without panic, json.Valid, decode to equal documents, one object per match whose fields equal the in-memory match (replacement present iff the match has one); exact string equality is demanded where the in-memory strings are valid UTF-8. Non-trivial = a result list with >= 1 match rendered and decoded; distinct by (program, text)."
 	r.Assumptions = []string{"strings that are not valid UTF-8 cannot round-trip through JSON; for those only validity, document equality of the two renderings and all non-string fields are demanded"}
 	fixed := len(c17Programs)
 	r.Exec(6*fixed+n, drv.ExecOpts{Batch: 100}, func(i int) *drv.Item {
@@ -166,6 +168,7 @@ func C17(r *drv.Run) {
 		}}
 	})
 	c17Files(r)
+	c17Large(r)
 	if r.NViolations() == 0 {
 		if r.Counter("file_results_with_unusual_names_verified") == 0 {
 			r.Inconclusive("coverage floor: no RunFiles result with unusual file names rendered")
@@ -347,6 +350,80 @@ func c17Files(r *drv.Run) {
 			c17CheckRun(r, &res.Runs[0], jb.src, []byte(strings.Join(jb.files, " | ")), &c)
 			if r.NViolations() == before && len(res.Runs[0].Matches) > 0 {
 				r.Count("file_results_with_unusual_names_verified", 1)
+			}
+		}}
+	})
+}
+
+// c17Large: result lists of thousands of matches (renderers that work in blocks or windows show their arithmetic
+// only there): sizes at and next to powers of two and ten, every thousand up to 20 000, and ten seed-chosen sizes.
+func c17Large(r *drv.Run) {
+	sizes := map[int]bool{}
+	for k := 9; k <= 14; k++ {
+		sizes[1<<k], sizes[1<<k-1], sizes[1<<k+1] = true, true, true
+	}
+	for _, n := range []int{999, 1000, 1001, 9999, 10000, 10001} {
+		sizes[n] = true
+	}
+	for j := 2; j <= 20; j++ {
+		sizes[1000*j] = true
+	}
+	rng := gen.Derive(r.Seed, "C17large", 0)
+	for k := 0; k < 10; k++ {
+		sizes[2000+rng.Intn(18000)] = true
+	}
+	// every list length in a range, rendered and validated inside the worker (quick: 1..1 500, thorough: 1..9 000)
+	top := 1500
+	if !quick(r) {
+		top = 9000
+	}
+	var ranges [][2]int
+	for lo := 1; lo <= top; {
+		// ranges of about equal cost (cost grows with the square of the length)
+		hi := min(int(math.Sqrt(float64(lo*lo)+200000))+1, top+1)
+		ranges = append(ranges, [2]int{lo, hi})
+		lo = hi
+	}
+	scanSrc := "find all (letter = c)"
+	r.Exec(len(ranges), drv.ExecOpts{Batch: 1}, func(i int) *drv.Item {
+		rg := ranges[i]
+		c := wire.Case{Op: "jsonscan", Src: []byte(scanSrc), Texts: [][]byte{[]byte(strings.Repeat("ab", rg[1]/2+1))}, Ops: rg[0], Seed: uint64(rg[1]), StepBudget: 50_000_000}
+		return &drv.Item{Case: c, Check: func(res *wire.Result) {
+			r.Eval(1)
+			if crashOrGuard(r, res, &c, scanSrc, false) {
+				return
+			}
+			if res.Mismatch != "" {
+				r.Violate(&drv.Violation{Sig: "rendering-of-some-list-length-is-not-valid-json", Src: scanSrc, Case: &c, Detail: map[string]any{"what": res.Mismatch, "lengths": fmt.Sprintf("%d..%d", rg[0], rg[1]-1)}})
+				return
+			}
+			r.Count("list_lengths_rendered_and_validated", res.Counters["lengths_rendered"])
+			r.Nontrivial(fmt.Sprintf("scan|%d", rg[0]))
+		}}
+	})
+	var ns []int
+	for n := range sizes {
+		ns = append(ns, n)
+	}
+	sort.Ints(ns)
+	progs := []string{"find all 'a'", "replace all (letter = c) with '<' c '>'"}
+	r.Exec(len(ns), drv.ExecOpts{Batch: 2}, func(i int) *drv.Item {
+		n := ns[i]
+		src := progs[i%len(progs)]
+		c := wire.Case{Op: "json", Src: []byte(src), Texts: [][]byte{[]byte(strings.Repeat("a", n))}, WantJSON: true, StepBudget: 50_000_000}
+		return &drv.Item{Case: c, Check: func(res *wire.Result) {
+			if crashOrGuard(r, res, &c, src, false) {
+				return
+			}
+			if res.Compile == nil || !res.Compile.OK || len(res.Runs) < 1 {
+				r.Inconclusive("fixed program rejected: " + src)
+				return
+			}
+			before := r.NViolations()
+			c17CheckRun(r, &res.Runs[0], src, []byte(fmt.Sprintf("(%d letters)", n)), &c)
+			if r.NViolations() == before && len(res.Runs[0].Matches) == n {
+				r.Count("large_lists_verified", 1)
+				r.Max("largest_list_rendered", n)
 			}
 		}}
 	})
